@@ -13,7 +13,7 @@ from mc.ref import expr as rx
 ID = "C10"
 LEVEL = "model_checking"
 LEVEL_TEXT = ("Explicit enumeration of `.if` programs (15 condition kinds: 0/1/2/-1 as literal, := constant, macro parameter, constant "
-              "expression, undefined name) x else present/absent x 5 then-bodies x 3 else-bodies x 4 placements (top level, block, "
+              "expression, undefined name) x else present/absent x 7 then-bodies (incl. a label used after the .if and a := override) x 4 else-bodies x 4 placements (top level, block, "
               "macro body, loop body) and `.for` programs (all bound pairs over {-2,0,1,3}^2, bounds from := constants, macro "
               "parameters and expressions) x 7 bodies (data over v, lda.b v, label + reference, nested loop over v*2+w, conditional, "
               "macro call with v, mixed) x 3 placements x 3 nestings (plain, inside a conditional, inside another loop; thorough: bound pairs over 9 values). Each program is assembled by the real "
@@ -34,7 +34,7 @@ DIRECT = ("", "", "")
 ORG = 0x018000
 NN = ("macro", "nn", ["x"], [("data", "db", [S("x")])])
 CONSTS = [("const", "kc", N(1)), ("const", "k0", N(0)), ("const", "k2", N(2)), ("const", "kn", ("u", "-", N(1))),
-          ("const", "ka", N(1)), ("const", "kb", N(3))]
+          ("const", "ka", N(1)), ("const", "kb", N(3)), ("const", "kq", N(1))]
 
 # condition kind -> (expression in the program, value, how it is supplied)
 COND = {
@@ -50,11 +50,15 @@ THEN = {
     "nested-if": [("if", S("kc"), [("data", "db", [N(0x12)])], [("data", "db", [N(0x13)])])],
     "nested-for": [("for", "jj", N(0), N(2), [("data", "db", [S("jj")])])],
     "call": [("call", "nn", [N(0x14)])],
+    "label-after": [("label", "la"), ("data", "db", [N(0x15)])],      # the label is referenced AFTER the .if
+    "const-override": [("const", "kq", N(2)), ("data", "db", [N(0x16)])],  # kq := 1 outside, .db kq after the .if
 }
+AFTER_IF = {"label-after": [("data", "dw", [S("la")])], "const-override": [("data", "db", [S("kq")])]}
 ELSE = {
     "db": [("data", "db", [N(0x21)])],
     "label": [("label", "el"), ("data", "dw", [S("el")])],
     "call": [("call", "nn", [N(0x24)])],
+    "label-after": [("label", "la"), ("data", "db", [N(0x25)])],
 }
 IF_PLACES = ["top", "block", "macro", "for"]
 FOR_BODIES = {
@@ -72,7 +76,7 @@ VALS_T = [-3, -2, -1, 0, 1, 2, 3, 5, 8]
 
 
 def bound(tier):
-    return ("IF: 15 condition kinds x else on/off x 5 then x 3 else bodies x 4 placements; FOR: (16 literal bound pairs + 5 symbolic) x 7 "
+    return ("IF: 15 condition kinds x else on/off x 7 then x 4 else bodies x 4 placements; FOR: (16 literal bound pairs + 5 symbolic) x 7 "
             "bodies x 3 placements x 3 nestings" + ("; bound pairs over {-3..3,5,8}^2" if tier == "thorough" else ""))
 
 
@@ -116,15 +120,21 @@ def if_programs(ck):
         for tk, ek in itertools.product(THEN, ELSE if has_else else ["db"]):
             for place in IF_PLACES:
                 then_b, else_b = THEN[tk], (ELSE[ek] if has_else else None)
+                if (tk == "label-after") != (has_else and ek == "label-after") and (has_else or tk == "label-after"):
+                    if tk == "label-after" and has_else:
+                        continue  # both branches must define the label that is used afterwards
+                    if ek == "label-after" and has_else:
+                        continue
                 selected = then_b if cval != 0 else (else_b or [])
+                after = AFTER_IF.get(tk, [])
                 for twin in (False, True):
                     macros = [NN]
                     if how == "param":
                         inner_if = [("if", S("cc"), then_b, else_b)]
-                        macros.append(("macro", "wp", ["cc"], selected if twin else inner_if))
+                        macros.append(("macro", "wp", ["cc"], (selected if twin else inner_if) + after))
                         inner = [("call", "wp", [cexpr])]
                     else:
-                        inner = selected if twin else [("if", cexpr, then_b, else_b)]
+                        inner = (selected if twin else [("if", cexpr, then_b, else_b)]) + after
                     body = skeleton(list(inner), place, macros)
                     prog = CONSTS + macros + body
                     if twin:
@@ -144,7 +154,8 @@ def for_programs(bk, tier):
     bounds = [(neg_safe(a), neg_safe(b), a, b, "direct", f"{a},{b}") for a in vals for b in vals]
     bounds += [(S("ka"), S("kb"), 1, 3, "direct", "ka,kb"), (S("kb"), S("ka"), 3, 1, "direct", "kb,ka"),
                (("b", "-", S("ka"), N(1)), ("b", "+", S("kb"), N(1)), 0, 4, "direct", "ka-1,kb+1"),
-               (N(1), N(3), 1, 3, "param", "param 1,3"), (N(0), S("kb"), 0, 3, "param", "param 0,kb")]
+               (N(1), N(3), 1, 3, "param", "param 1,3"), (N(0), S("kb"), 0, 3, "param", "param 0,kb"),
+               (N(1), N(3), 1, 3, "param-twice", "param 1,3 then 0,1"), (N(2), N(2), 2, 2, "param-twice", "param 2,2 then 0,1")]
     for lo_e, hi_e, lo, hi, how, btag in bounds:
         for place in FOR_PLACES:
             variants = [("plain", lambda x: x), ("in-if", lambda x: [("if", S("kc"), x, None)]),
@@ -154,7 +165,16 @@ def for_programs(bk, tier):
                 for twin in (False, True):
                     macros = [NN]
                     loop = unroll("vv", lo, hi, body) if twin else [("for", "vv", lo_e, hi_e, body)]
-                    if how == "param":
+                    if how == "param-twice":
+                        # the same macro (one .for in its body) applied twice with different bounds
+                        if twin:
+                            macros.append(("macro", "wfa", [], loop))
+                            macros.append(("macro", "wfb", [], unroll("vv", 0, 1, body)))
+                            inner = [("call", "wfa", []), ("data", "db", [N(0xEA)]), ("call", "wfb", [])]
+                        else:
+                            macros.append(("macro", "wf", ["lo", "hi"], [("for", "vv", S("lo"), S("hi"), body)]))
+                            inner = [("call", "wf", [lo_e, hi_e]), ("data", "db", [N(0xEA)]), ("call", "wf", [N(0), N(1)])]
+                    elif how == "param":
                         macros.append(("macro", "wf", ["lo", "hi"], loop if twin else [("for", "vv", S("lo"), S("hi"), body)]))
                         inner = [("call", "wf", [lo_e, hi_e])]
                     else:
